@@ -1,6 +1,60 @@
 import SR.Drv.Loop
-/-! Driver commands for C12 (stub). -/
+import SR.Util.HasDisc
+/-! Driver commands for C12.
+Model side: `hd-matches cond D props`. Oracle side: `o-hd cond D props result` evaluates the right-hand
+side of the `C12_matches_*` theorems (the declarative meaning of the variant) on the IMPLEMENTATION's
+answer. Encoding: cond = `all | any | anyf | allf | (allof (n ...)) | (anyof (n ...))`,
+D = `(n ...)`, props = `((name exp) ...)` with exp = `a | e | s`. -/
 namespace SR.Drv.C12
+open SR SR.HasDisc
+
+def expOf? : SExp → Option Expect
+  | .atom "a" => some .always
+  | .atom "e" => some .eventually
+  | .atom "s" => some .sometimes
+  | _ => none
+
+def propOf? (x : SExp) : Option P := do
+  let (n, e) ← SExp.pairOf? SExp.nat? expOf? x
+  pure ⟨n, e⟩
+
+def condOf? : SExp → Option Cond
+  | .atom "all" => some .all
+  | .atom "any" => some .any
+  | .atom "anyf" => some .anyFailures
+  | .atom "allf" => some .allFailures
+  | .list [.atom "allof", s] => (s.nats?).map .allOf
+  | .list [.atom "anyof", s] => (s.nats?).map .anyOf
+  | _ => none
+
+def nodupB (l : List Nat) : Bool :=
+  match l with
+  | [] => true
+  | x :: xs => !xs.contains x && nodupB xs
+
+/-- the declarative meaning of a variant (right-hand sides of `C12_matches_*`); `none` = the theorem
+    has a hypothesis that this input violates (only `All`: foreign discoveries / duplicate names) -/
+def spec (c : Cond) (D : List Nat) (props : List P) : Option Bool :=
+  match c with
+  | .all =>
+    if nodupB D && nodupB (names props) && D.all (fun n => (names props).contains n) then
+      some (props.all fun p => D.elem p.name)
+    else none
+  | .any => some (decide (D ≠ []))
+  | .anyFailures => some (props.any fun p => p.exp != .sometimes && D.elem p.name)
+  | .allFailures => some (props.all fun p => p.exp == .sometimes || D.elem p.name)
+  | .allOf s => some (s.all fun n => D.elem n)
+  | .anyOf s => some (s.any fun n => D.elem n)
+
 def handle : Drv.Handler
+  | "hd-matches", [c, d, ps] => do
+    let c ← condOf? c; let d ← d.nats?; let ps ← ps.listOf? propOf?
+    pure (bstr («matches» c d ps))
+  | "o-hd", [c, d, ps, r] => do
+    let c ← condOf? c; let d ← d.nats?; let ps ← ps.listOf? propOf?; let r ← r.bool?
+    pure (match spec c d ps with
+      | none => "ok"
+      | some b => if b == r then "ok" else s!"variant-does-not-mean-its-name:spec={bstr b}")
   | _, _ => none
+
 end SR.Drv.C12
